@@ -245,10 +245,27 @@ func TestC19_ManySignatures(t *testing.T) {
 			}
 			want[md.Digest] = pushedSig{man: md.Digest, mt: mt, env: env, blob: bd.Digest, other: subj.Digest == subjects[1].Digest}
 		}
+		offSize := false
+		if rapid.Bool().Draw(rt, "signatureForDescriptorSharingOnlyTheDigest") {
+			// a signature pushed, through the same API, for a descriptor that shares the artifact's
+			// digest but states another size: that is not this artifact (whether the push succeeds or not)
+			foreign := subjects[0]
+			foreign.Size++
+			if _, md, err := repo.PushSignature(ctx, mtJOSE, []byte("envelope for the off-size descriptor"), foreign, nil); err == nil {
+				want[md.Digest] = pushedSig{man: md.Digest, mt: mtJOSE, env: []byte("envelope for the off-size descriptor"), other: true}
+			}
+			offSize = true
+		}
 		for _, h := range []struct {
 			name string
 			r    registry.Repository
-		}{{"pushing-handle", repo}, {"fresh-handle", reopen()}} {
+		}{{"pushing-handle", repo}, {"fresh-handle", nil}} {
+			if h.name == "fresh-handle" {
+				if offSize && kind == "layout" {
+					continue // a layout holding a referrer of a descriptor that does not exist cannot be re-opened (oras)
+				}
+				h.r = reopen()
+			}
 			var listed []ocispec.Descriptor
 			calls := 0
 			if err := h.r.ListSignatures(ctx, subjects[0], func(ds []ocispec.Descriptor) error { calls++; listed = append(listed, ds...); return nil }); err != nil {
@@ -280,6 +297,9 @@ func TestC19_ManySignatures(t *testing.T) {
 			}
 		}
 		cl := []string{"many-signatures", "many-store=" + kind}
+		if offSize {
+			cl = append(cl, "signature-pushed-for-descriptor-sharing-only-the-digest")
+		}
 		switch {
 		case n >= 33:
 			cl = append(cl, "signatures-of-one-artifact>=33")
